@@ -816,30 +816,40 @@ def paramsTailToks : List Decl → Toks
   | p :: ps => [tk .COMMA ","] ++ p.toks ++ paramsTailToks ps
 end
 
+/-- `const volatile <type tokens of the typemap>`: `none` where the text level is `TypeError` -/
+def argHead (env : Env) (asC : Bool) (s : Spec) : Option Toks :=
+  let tm := match s.targs with | t :: _ => t.typemap | [] => s.typemap
+  match env.typeInfo tm with
+  | none => none
+  | some ti =>
+    match (if asC then ti.cType else ti.cxxType) with
+    | none => none
+    | some _ => some (cvToks s.const s.volatile ++ (if asC then ti.cToks else ti.cxxToks))
+
+def dtoksC (asC : Bool) : Option Declarator → Toks
+  | some d => d.toks asC
+  | none => []
+
 mutual
 /-- token list of `gen_arg_as_cxx()` / `gen_arg_as_c()`: the typemap's C++ / C type,
     no attributes, no default value; `none` where the text level is `TypeError` -/
 def Decl.argToks (env : Env) (asC : Bool) : Decl → Option Toks
   | .mk s dr params fc arr _ _ =>
-    let tm := match s.targs with | t :: _ => t.typemap | [] => s.typemap
-    match env.typeInfo tm with
+    match argHead env asC s, argParamsToks env asC fc params with
+    | some h, some pt => some (h ++ dtoksC asC dr ++ pt ++ arraysToks arr)
+    | _, _ => none
+def argParamsToks (env : Env) (asC : Bool) (fc : Bool) : Option (List Decl) → Option Toks
+  | none => some []
+  | some ps =>
+    match argListToks env asC ps with
+    | some t => some ([tk .LPAREN "("] ++ t ++ [tk .RPAREN ")"] ++ fcToks fc)
     | none => none
-    | some ti =>
-      match (if asC then ti.cType else ti.cxxType) with
-      | none => none
-      | some _ =>
-        let head := cvToks s.const s.volatile ++ (if asC then ti.cToks else ti.cxxToks)
-          ++ (match dr with | some d => d.toks asC | none => [])
-        let ps : Option Toks := match params with
-          | none => some []
-          | some [] => some ([tk .LPAREN "(", tk .TYPE_SPECIFIER "void", tk .RPAREN ")"] ++ fcToks fc)
-          | some (p :: ps) =>
-            match Decl.argToks env asC p, argTailToks env asC ps with
-            | some a, some b => some ([tk .LPAREN "("] ++ a ++ b ++ [tk .RPAREN ")"] ++ fcToks fc)
-            | _, _ => none
-        match ps with
-        | none => none
-        | some pt => some (head ++ pt ++ arraysToks arr)
+def argListToks (env : Env) (asC : Bool) : List Decl → Option Toks
+  | [] => some [tk .TYPE_SPECIFIER "void"]
+  | p :: ps =>
+    match Decl.argToks env asC p, argTailToks env asC ps with
+    | some a, some b => some (a ++ b)
+    | _, _ => none
 def argTailToks (env : Env) (asC : Bool) : List Decl → Option Toks
   | [] => some []
   | p :: ps =>
